@@ -444,6 +444,36 @@ class ChangeScenario(Scenario):
     def allow_early_user(self, env: Env, action: UserAction) -> bool:
         return self.params.get('early_user', True)
 
+    # -- network holds (params['holds'] = [(start, end, 'all' | 'echo')]) --
+    def deliverable(self, env: Env, s: Any, item: Any) -> bool:
+        """Network holds: events caused after the user's last edit are released at chosen instants."""
+        holds = self.params.get('holds')
+        if not holds or not isinstance(item, dict) or item.get('type') not in ('ADDED', 'MODIFIED', 'DELETED'):
+            return True
+        rv = int(item['object']['metadata']['resourceVersion'])
+        actor = None
+        user_rv = 0
+        for w in env.world.writes:
+            if w['post'] is None:
+                continue
+            wrv = int(w['post']['metadata']['resourceVersion'])
+            if w['actor'] == 'user':
+                user_rv = max(user_rv, wrv)
+            if wrv == rv:
+                actor = w['actor']
+        if rv <= user_rv:
+            return True
+        for start, end, which in holds:
+            if start <= env.now < end:
+                if which == 'all' or (which == 'echo' and actor is not None and actor.startswith('op:')):
+                    return False
+        return True
+
+    def instants(self, env: Env) -> Iterable[float]:
+        for start, end, which in self.params.get('holds', []):
+            yield start
+            yield end
+
     # -- helpers for oracles --
     def handler_ids(self) -> list[str]:
         ids = [h['id'] for h in self.params['handlers']]
